@@ -13,19 +13,111 @@ import (
 type res0 struct{ V int64 }
 type res1 struct{ V int64 }
 type res2 struct{ V, W int64 }
-type res3 struct{ S string }
+type res3 struct {
+	V int64
+	S string
+}
 
 var resTypes = [4]reflect.Type{reflect.TypeFor[res0](), reflect.TypeFor[res1](), reflect.TypeFor[res2](), reflect.TypeFor[res3]()}
+
+// resAccess bundles the ID-based and the generic access path of one resource type.
+type resAccess struct {
+	id     ecs.ResID
+	add    func(v int64)
+	remove func()
+	get    func() (int64, bool) // value, present (generic mapper)
+	has    func() bool
+}
+
+// res returns the access paths of resource n; the ResID and the generic mapper are obtained once
+// and kept for the world's lifetime (also across Reset): a type must map to the same ID forever.
+func (x *World) res(n int) *resAccess {
+	if x.resAcc[n] != nil {
+		return x.resAcc[n]
+	}
+	a := &resAccess{id: ecs.ResourceTypeID(x.W, resTypes[n])}
+	switch n {
+	case 0:
+		m := ecs.NewResource[res0](x.W)
+		a.add, a.remove, a.has = func(v int64) { m.Add(&res0{V: v}) }, m.Remove, m.Has
+		a.get = func() (int64, bool) {
+			if p := m.Get(); p != nil {
+				return p.V, true
+			}
+			return 0, false
+		}
+	case 1:
+		m := ecs.NewResource[res1](x.W)
+		a.add, a.remove, a.has = func(v int64) { m.Add(&res1{V: v}) }, m.Remove, m.Has
+		a.get = func() (int64, bool) {
+			if p := m.Get(); p != nil {
+				return p.V, true
+			}
+			return 0, false
+		}
+	case 2:
+		m := ecs.NewResource[res2](x.W)
+		a.add, a.remove, a.has = func(v int64) { m.Add(&res2{V: v, W: ^v}) }, m.Remove, m.Has
+		a.get = func() (int64, bool) {
+			if p := m.Get(); p != nil {
+				return p.V, true
+			}
+			return 0, false
+		}
+	default:
+		m := ecs.NewResource[res3](x.W)
+		a.add, a.remove, a.has = func(v int64) { m.Add(&res3{V: v}) }, m.Remove, m.Has
+		a.get = func() (int64, bool) {
+			if p := m.Get(); p != nil {
+				return p.V, true
+			}
+			return 0, false
+		}
+	}
+	x.resAcc[n] = a
+	return a
+}
+
+func resValue(n int, v any) (int64, bool) {
+	switch r := v.(type) {
+	case *res0:
+		return r.V, n == 0
+	case *res1:
+		return r.V, n == 1
+	case *res2:
+		return r.V, n == 2
+	case *res3:
+		return r.V, n == 3
+	}
+	return 0, false
+}
 
 func (x *World) runMisc(op *model.Op, res *model.Result) *Violation {
 	switch op.K {
 	case model.OpResAdd:
-		id := ecs.ResourceTypeID(x.W, resTypes[op.N])
-		v := &res0{V: x.M.Res[op.N]}
-		x.W.Resources().Add(id, v)
+		// alternate between the generic mapper and the ID-based path
+		a := x.res(op.N)
+		if x.Step%2 == 0 {
+			a.add(x.M.Res[op.N])
+		} else {
+			switch op.N {
+			case 0:
+				x.W.Resources().Add(a.id, &res0{V: x.M.Res[0]})
+			case 1:
+				ecs.AddResource(x.W, &res1{V: x.M.Res[1]})
+			case 2:
+				x.W.Resources().Add(a.id, &res2{V: x.M.Res[2]})
+			default:
+				ecs.AddResource(x.W, &res3{V: x.M.Res[3]})
+			}
+		}
 	case model.OpResRemove:
-		id := ecs.ResourceTypeID(x.W, resTypes[op.N])
-		x.W.Resources().Remove(id)
+		a := x.res(op.N)
+		if x.Step%2 == 0 {
+			a.remove()
+		} else {
+			x.W.Resources().Remove(a.id)
+		}
 	case model.OpInvalid:
 		return x.runInvalid(op, res)
 	case model.OpRegisterComp:
@@ -219,9 +311,17 @@ func (x *World) runInvalid(op *model.Op, res *model.Result) *Violation {
 			u.NewEntity(id, id)
 		}
 	case InvResAdd:
-		x.W.Resources().Add(ecs.ResourceTypeID(x.W, resTypes[op.N]), &res0{V: -1})
+		if x.Step%2 == 0 {
+			x.res(op.N).add(-1)
+		} else {
+			x.W.Resources().Add(x.res(op.N).id, &res0{V: -1})
+		}
 	case InvResRemove:
-		x.W.Resources().Remove(ecs.ResourceTypeID(x.W, resTypes[op.N]))
+		if x.Step%2 == 0 {
+			x.res(op.N).remove()
+		} else {
+			x.W.Resources().Remove(x.res(op.N).id)
+		}
 	default:
 		harness("unknown invalid kind %d", op.Inv)
 	}
@@ -230,21 +330,26 @@ func (x *World) runInvalid(op *model.Op, res *model.Result) *Violation {
 
 func (x *World) checkResources() *Violation {
 	for n := range resTypes {
-		id := ecs.ResourceTypeID(x.W, resTypes[n])
-		has := x.W.Resources().Has(id)
-		if has != (x.M.Res[n] != 0) {
-			return x.viol("resource", "Resources.Has(%d)=%v, model says %v", n, has, x.M.Res[n] != 0)
+		a := x.res(n)
+		if fresh := ecs.ResourceTypeID(x.W, resTypes[n]); fresh != a.id {
+			return x.viol("resource", "resource type %d maps to ID %d now, it mapped to ID %d before", n, fresh.Index(), a.id.Index())
 		}
-		got := x.W.Resources().Get(id)
-		if !has {
-			if got != nil {
-				return x.viol("resource", "Resources.Get(%d) non-nil for an absent resource", n)
+		want := x.M.Res[n] != 0
+		has := x.W.Resources().Has(a.id)
+		if has != want || a.has() != want {
+			return x.viol("resource", "resource %d: Resources.Has=%v, Resource[T].Has=%v, model says %v", n, has, a.has(), want)
+		}
+		got := x.W.Resources().Get(a.id)
+		gv, gok := a.get()
+		if !want {
+			if got != nil || gok {
+				return x.viol("resource", "resource %d: Get returns a value for an absent resource", n)
 			}
 			continue
 		}
-		r, ok := got.(*res0)
-		if !ok || r.V != x.M.Res[n] {
-			return x.viol("resource", "Resources.Get(%d) = %v, model says token %d", n, got, x.M.Res[n])
+		v, ok := resValue(n, got)
+		if !ok || v != x.M.Res[n] || !gok || gv != v {
+			return x.viol("resource", "resource %d: Resources.Get = %v, Resource[T].Get = %d/%v, model says token %d", n, got, gv, gok, x.M.Res[n])
 		}
 	}
 	return nil
